@@ -1,6 +1,6 @@
 SPECIFICATION PSpec
 CONSTANTS
-  NCls = 14
+  NCls = 16
   D = 7
 CONSTRAINT Emit
 INVARIANT PoolUnchanged
